@@ -19,6 +19,7 @@ func (r *Router) parseParamRoute(route *Route) (first string) {
 	if len(ss) == 0 {
 		regexStr := checkAndParseOptional(quotePointChar(path))
 		route.regex = regexp.MustCompile("^" + regexStr + "$")
+		route.goodRegexGroups()
 		return
 	}
 
@@ -82,6 +83,7 @@ func (r *Router) parseParamRoute(route *Route) (first string) {
 	// replace {var} -> regex str
 	regexStr := strings.NewReplacer(varRegex...).Replace(path)
 	route.regex = regexp.MustCompile("^" + regexStr + "$")
+	route.goodRegexGroups()
 	return
 }
 
